@@ -141,6 +141,85 @@ theorem c17_atomic_atomic_write (old : Option Bytes) (chunks : List Bytes) (fsyn
     exact publish old chunks _ [.rename, .removeTemp] j
       (no_rename_in _ _ (by cases fsync <;> simp)) (closed_full old chunks _ (by cases fsync <;> simp)) (Or.inr rfl)
 
+/-! ### explicit flushes anywhere among the writes change nothing -/
+
+/-- a write phase: appends and explicit flushes in any order -/
+def isBody : FsOp → Bool
+  | .append _ => true
+  | .flush => true
+  | _ => false
+
+def dataOf : List FsOp → Bytes
+  | [] => []
+  | .append d :: rest => d ++ dataOf rest
+  | _ :: rest => dataOf rest
+
+/-- while the handle is on the temporary file, a write phase keeps `temp ++ buf` = everything written so far -/
+theorem body_content (body : List FsOp) (hb : body.all isBody = true) (fs : Fs) (t : Bytes)
+    (hh : fs.handle = .onTemp) (ht : fs.temp = some t) :
+    ∃ t', (applyAll fs body).temp = some t' ∧ t' ++ (applyAll fs body).buf = t ++ fs.buf ++ dataOf body ∧
+      (applyAll fs body).dest = fs.dest ∧ (applyAll fs body).handle = .onTemp := by
+  induction body generalizing fs t with
+  | nil => exact ⟨t, ht, by simp [applyAll, dataOf], rfl, hh⟩
+  | cons o os ih =>
+    simp only [List.all_cons, Bool.and_eq_true] at hb
+    rw [applyAll_cons]
+    cases o with
+    | append d =>
+      have hs : apply fs (.append d) = { fs with buf := fs.buf ++ d } := by simp [apply, hh]
+      obtain ⟨t', h1, h2, h3, h4⟩ := ih hb.2 (apply fs (.append d)) t (by rw [hs]; exact hh) (by rw [hs]; exact ht)
+      refine ⟨t', h1, ?_, ?_, h4⟩
+      · rw [h2, hs]; simp [dataOf, List.append_assoc]
+      · rw [h3, hs]
+    | flush =>
+      have hs : apply fs .flush = { fs with temp := some (t ++ fs.buf), buf := [] } := by
+        simp [apply, flushBuf, hh, ht]
+      obtain ⟨t', h1, h2, h3, h4⟩ := ih hb.2 (apply fs .flush) (t ++ fs.buf) (by rw [hs]; exact hh) (by rw [hs])
+      refine ⟨t', h1, ?_, ?_, h4⟩
+      · rw [h2, hs]; simp [dataOf]
+      · rw [h3, hs]
+    | createTemp => simp [isBody] at hb
+    | close => simp [isBody] at hb
+    | closeFail => simp [isBody] at hb
+    | rename => simp [isBody] at hb
+    | removeTemp => simp [isBody] at hb
+
+theorem body_no_rename (body : List FsOp) (hb : body.all isBody = true) : FsOp.rename ∉ body := by
+  intro h
+  have := List.all_eq_true.1 hb _ h
+  simp [isBody] at this
+
+/-- Atomicity with explicit flushes anywhere: a program that creates the temporary file, performs ANY sequence of
+    writes and flushes, closes, and only then renames (optionally removing the temporary name afterwards) leaves the
+    destination old or complete wherever it is cut. `OutputToFile` and `atomic_write` (with or without filesync, with
+    or without additional flushes) are instances; this is why the correspondence does not compare flush operations. -/
+theorem c17_atomic_with_any_flushes (old : Option Bytes) (body : List FsOp) (hb : body.all isBody = true)
+    (post : List FsOp) (hpost : post = [.rename] ∨ post = [.rename, .removeTemp]) (j : Nat) :
+    let d := (applyAll { dest := old } (crashAfter j ([FsOp.createTemp] ++ body ++ [.close] ++ post))).dest
+    d = old ∨ d = some (dataOf body) := by
+  have hst : applyAll { dest := old } ([FsOp.createTemp] ++ body ++ [.close]) =
+      { dest := old, temp := some (dataOf body), buf := [], handle := .closed } := by
+    rw [applyAll_append, applyAll_append]
+    have h0 : applyAll { dest := old } [FsOp.createTemp] = { dest := old, temp := some [], buf := [], handle := .onTemp } := rfl
+    rw [h0]
+    obtain ⟨t', h1, h2, h3, h4⟩ := body_content body hb { dest := old, temp := some [], buf := [], handle := .onTemp } [] rfl rfl
+    generalize hfs : applyAll { dest := old, temp := some [], buf := [], handle := .onTemp } body = fs at h1 h2 h3 h4
+    cases fs with
+    | mk d tmp b hd =>
+      simp only at h1 h2 h3 h4
+      subst h1 h3 h4
+      simp only [List.nil_append] at h2
+      simp [applyAll, apply, flushBuf, h2]
+  have hnr : FsOp.rename ∉ ([FsOp.createTemp] ++ body ++ [.close]) := by
+    intro h
+    simp only [List.mem_append, List.mem_singleton] at h
+    rcases h with (h | h) | h
+    · cases h
+    · exact body_no_rename body hb h
+    · cases h
+  have := publish old [dataOf body] ([FsOp.createTemp] ++ body ++ [.close]) post j hnr (by simpa [full] using hst) hpost
+  simpa [full] using this
+
 /-- publishing BEFORE closing is not atomic: killed right after the rename, the destination is an empty (truncated)
     file although an old complete record existed and the new one is non-empty -/
 theorem rename_before_close_is_not_atomic :
